@@ -174,7 +174,7 @@ PROPERTIES = {
                            "lexicographic ranking of ALL pairs of feasible points of small configurators (ids of every sort position; default lists of several entries). END TO END (contracts.c14shape): real cc.Xor/cc.Any/StingyConfigurator constructors, real flatten, default_prios and ge_polyhedron on a concrete three-rule configurator (default lists of one and two entries; configurator id sorting first / in the middle / last; plain rule with symbolic threshold, both signs): the non-default branch is exactly the items without the FIRST listed default, its column holds -2 in the default priority vector and every other column -1. ADDED: StingyConfigurator.default_prios (tag or -1 for every flattened node, over the assumed flatten contract) and ge_polyhedron_config._vectors_from_prios (the [default vector, user row] stack handed to the shadow compression; compression itself replaced by a recorder) under contract with replay. ADDED: the objective vector end to end -- the real _vectors_from_prios including the real shadow compression over the executable form of A-rs2 (2-3 columns, symbolic default levels in {-1,-2}, symbolic user priorities): sign, equal levels equal weights, dominance of every level over the sum of all lower levels (the premise of the Lean lemma dominance_two_level)."},
     "C15": {"harness_modules": ["contracts.c15", "contracts.c14"],
             "harness_filter": only("AtLeast.solve", "ge_polyhedron_config.select", "StingyConfigurator.select",
-                                   "ge_polyhedron_config._vectors_from_prios"),
+                                   "ge_polyhedron_config._vectors_from_prios", "AtLeast.solve(built-in)"),
             "rt": ["rt.config:c15_bridge"], "level": "other", "assumptions": S_ALL +
             ["to_ge_polyhedron / _vectors_from_prios are replaced on the receiver by stubs returning a prepared polyhedron / objective matrix "
              "with symbolic entries (their own contracts: C01, C13/C14); optimality of an exact solver's answer over that polyhedron is the "
@@ -185,7 +185,7 @@ PROPERTIES = {
                            "generated-id filter, None -> {}, pass-through of value/status; ge_polyhedron_config.select likewise and "
                            "turns a solver exception into InfeasibleError; StingyConfigurator.select forwards and keeps exactly the "
                            "leaf ids under only_leafs. bounded stand-in: recording and exact solvers on random models/configurators, "
-                           "batched vs single requests. ADDED: ge_polyhedron_config._vectors_from_prios under contract (user row = weight at the named column, 0 elsewhere, symbolic column bounds)."},
+                           "batched vs single requests. ADDED: ge_polyhedron_config._vectors_from_prios under contract (user row = weight at the named column, 0 elsewhere, symbolic column bounds). ADDED (beyond the statement, which is about a supplied callable): AtLeast.solve(built-in) -- the branch without a callable, real _to_pyrs_theory and objective/solution translation against TheoryPy.solve as an OPEN contract (arguments recorded, answers fresh symbolic values): the dictionary handed to the compiled solver maps the statement of every named id to its weight and nothing else; the report maps every id to the value of its statement; replayed natively through a recording proxy around the compiled class."},
     "C16": {"harness_modules": ["contracts.c16", "contracts.shapes"],
             "harness_filter": lambda h: h.name.startswith("json:") or h.name in ("shape.json", "shape.json.imply"),
             "rt": ["rt.logic:c16_json_roundtrip", "rt.config:c16_configurator_json"], "level": "other",
